@@ -375,6 +375,25 @@ structure ReadLookup (σ : Type) where
   mfs : Nat
   subs : List σ
 
+/-- the decoded subtables of a lookup that is not resolved through extension records -/
+def inrOnly {σ : Type} (subs : List (Sum (Nat × Nat) σ)) : List σ :=
+  subs.filterMap fun x => match x with
+    | .inr p => some p
+    | .inl _ => none
+
+/-- after the first pass over the subtables of a lookup: if the first one is an extension record, all
+must be, with one extension lookup type different from the lookup's own type (second pass) -/
+def finishLookup {σ : Type} (leaf : Nat → Nat → Outcome σ) (lp tp flags mfs : Nat) (offs : List Nat)
+    (subs : List (Sum (Nat × Nat) σ)) : Outcome (ReadLookup σ) :=
+  match subs with
+  | .inl (et, _) :: _ =>
+    if et == tp then .err eInvalid
+    else match resolveExt leaf lp et offs subs with
+      | .ok ps => .ok ⟨et, flags, mfs, ps⟩
+      | .err e => .err e
+      | .panic s => .panic s
+  | _ => .ok ⟨tp, flags, mfs, inrOnly subs⟩
+
 def readLookups {σ : Type} (leaf : Nat → Nat → Outcome σ) (b : Bytes) (extType : Nat) :
     List Nat → (numL numS : Nat) → Outcome (List (ReadLookup σ))
   | [], _, _ => .ok []
@@ -389,18 +408,7 @@ def readLookups {σ : Type} (leaf : Nat → Nat → Outcome σ) (b : Bytes) (ext
           | .ok mfs =>
             match srAll leaf b extType tp lp offs with
             | .ok subs =>
-              let here : Outcome (ReadLookup σ) :=
-                match subs with
-                | .inl (et, _) :: _ =>
-                  if et == tp then .err eInvalid
-                  else match resolveExt leaf lp et offs subs with
-                    | .ok ps => .ok ⟨et, flags, mfs, ps⟩
-                    | .err e => .err e
-                    | .panic s => .panic s
-                | _ => .ok ⟨tp, flags, mfs, subs.filterMap fun x => match x with
-                    | .inr p => some p
-                    | .inl _ => none⟩
-              match here with
+              match finishLookup leaf lp tp flags mfs offs subs with
               | .ok l =>
                 match readLookups leaf b extType lps (numL + 1) (numS + cnt) with
                 | .ok ls => .ok (l :: ls)
